@@ -751,6 +751,72 @@ def dissolve_field_helper_classes(tree, foreign_text=''):
         done.append(K.name)
     return done
 
+def inline_simple_properties(tree):
+    """A read-only property with a private name that no other class of the module uses, whose body is one ``return`` of an
+    expression over ``self``, is replaced at every read ``Y._p`` (Y a name or attribute chain) by that expression with Y
+    for ``self``.  -> ['C._p', ...]"""
+    props = {}
+    for C in [c for c in tree.body if isinstance(c, ast.ClassDef)]:
+        for m in C.body:
+            if isinstance(m, ast.FunctionDef) and len(m.decorator_list) == 1 and isinstance(m.decorator_list[0], ast.Name) and \
+                    m.decorator_list[0].id == 'property' and m.name.startswith('_') and not m.name.startswith('__') and len(m.args.args) == 1:
+                body = [st for st in m.body if not (isinstance(st, ast.Expr) and isinstance(st.value, ast.Constant))]
+                if len(body) == 1 and isinstance(body[0], ast.Return) and body[0].value is not None:
+                    me = m.args.args[0].arg
+                    e = body[0].value
+                    if all(not isinstance(x, (ast.Call, ast.Lambda, ast.Yield, ast.Await, ast.NamedExpr)) for x in ast.walk(e)) and \
+                            all(x.id == me or x.id in ('None', 'True', 'False') or x.id[:1].isupper() or x.id.startswith('_')
+                                for x in ast.walk(e) if isinstance(x, ast.Name)):
+                        props.setdefault(m.name, []).append((C, m, me, e))
+    out = []
+    for name, defs in props.items():
+        if len(defs) != 1:
+            continue
+        C, m, me, e = defs[0]
+        clash = False
+        for n in ast.walk(tree):
+            if isinstance(n, ast.Attribute) and n.attr == name and isinstance(n.ctx, (ast.Store, ast.Del)):
+                clash = True
+            if isinstance(n, ast.Constant) and n.value == name:
+                clash = True
+            if isinstance(n, (ast.FunctionDef, ast.ClassDef)) and n.name == name and n is not m:
+                clash = True
+            if isinstance(n, ast.Attribute) and n.attr in ('setter', 'deleter') and isinstance(n.value, ast.Name) and n.value.id == name:
+                clash = True
+            if isinstance(n, ast.Name) and n.id == name:
+                clash = True
+        if clash:
+            continue
+
+        def chain(y):
+            return isinstance(y, ast.Name) or (isinstance(y, ast.Attribute) and chain(y.value))
+
+        class T(ast.NodeTransformer):
+            def visit_Attribute(self, node):
+                self.generic_visit(node)
+                if node.attr == name and isinstance(node.ctx, ast.Load) and chain(node.value):
+                    recv = node.value
+
+                    class S(ast.NodeTransformer):
+                        def visit_Name(self, x):
+                            if x.id == me:
+                                return ast.copy_location(_clone(recv), x)
+                            return x
+                    new = S().visit(_clone(e))
+                    for x in ast.walk(new):
+                        ast.copy_location(x, node)
+                    return new
+                return node
+        for st in tree.body:
+            if isinstance(st, ast.ClassDef):
+                for sub in st.body:
+                    if sub is not m:
+                        T().visit(sub)
+            else:
+                T().visit(st)
+        out.append('%s.%s' % (C.name, name))
+    return out
+
 
 class FuncInfo:
     def __init__(self, module, node, cls=None, parent=None):
@@ -876,6 +942,7 @@ class Module:
             self.src = f.read()
         self.tree = repo.parsed(name)
         self.desugared = desugar_match(self.tree)
+        self.inlined_properties = inline_simple_properties(self.tree)
         self.flattened = flatten_single_use_bases(self.tree, repo.foreign_text(name))
         self.specialised = specialise_template_methods(self.tree)
         self.dissolved = dissolve_field_helper_classes(self.tree, repo.foreign_text(name))
